@@ -18,7 +18,8 @@ from .. import e2e, guard
 from ..common import Hang, Rng, hx, unhx, watchdog
 from ..runner import Check
 from ..translate import formats
-from . import c15_history, c15_refs
+from ..translate import yamlloader
+from . import c15_history, c15_refs, c15_yaml
 
 V2 = "pydantic_v2.BaseModel"
 
@@ -780,10 +781,12 @@ def search(ck: Check) -> None:
 def run(ck: Check) -> None:
     quick = ck.tier == "quick"
     ck.translate(formats.GEN_NAME, formats.generate())  # extractors fall back to an 'unrecognised' table
+    ck.translate(yamlloader.GEN_NAME, yamlloader.generate())
     ck.prove()
     ck.assumptions += [
         "JSON-vs-YAML text and str-vs-Path are I/O (PyYAML, file system): no theorem, differential runs only",
         "'equivalent YAML text' is yaml.safe_dump of the JSON value; additionally a YAML-1.2-style text in which timestamp-looking strings are plain scalars (the case the SafeLoader patch exists for); other YAML 1.1 implicit types (yes/no/on/off, sexagesimals) are always quoted by the emitter",
+        "pair json_vs_yaml_surface: a YAML text with surface features JSON cannot spell (merge keys, anchors/aliases, tags, block scalars, YAML-1.1 spellings, …) MEANS what the stock PyYAML SafeLoader (pure Python, pristine tables) with the reviewed overrides (timestamps are strings) reads; its JSON text is json.dumps of that value; texts whose value has no JSON text (non-string keys, .inf/.nan, binary, sets) are compared at the loader only",
         "'JSON text' of a value is any json.dumps of it (compact, indented with blanks or tabs, ASCII-escaped or not)",
         "schemas are taken from the subset common to JSON Schema and OpenAPI 3.0 (single `type`, no nullable/type lists); a side of an interval has either an inclusive or an exclusive bound, never both",
         "definitions vs components.schemas: the JSON-Schema document has a root schema and the OpenAPI document has none, so the root model `Model` is not compared there; everywhere else every top-level definition is compared",
@@ -794,9 +797,13 @@ def run(ck: Check) -> None:
     guard.campaign(ck, campaign_containers, 90 if quick else 600)
     guard.campaign(ck, campaign_e2e, 60 if quick else 600)
     guard.campaign(ck, campaign_both_containers)
+    guard.campaign(ck, c15_yaml.campaign_constructors)
+    guard.campaign(ck, c15_yaml.campaign_loader, 240 if quick else 4000)
+    guard.campaign(ck, c15_yaml.campaign_e2e, 36 if quick else 700)
     guard.campaign(ck, c15_refs.campaign_loader, 150 if quick else 1500)
     guard.campaign(ck, c15_refs.campaign_refs, 70 if quick else 700)
     guard.campaign(ck, c15_history.campaign_history, 60 if quick else 900)
+    ck.search_hooks.append(c15_yaml.search)
     ck.search_hooks.append(c15_history.search)
     ck.search_hooks.append(c15_refs.search)
     ck.search_hooks.append(search)
@@ -814,6 +821,8 @@ def replay(ck: Check, path: str) -> int:
         c15_refs.oracle_case(ck, camp, inp["definitions"], inp["extra"])
     elif inp.get("pair") == c15_history.PAIR:
         c15_history.oracle_case(ck, camp, inp["steps"], inp["extra"])
+    elif inp.get("pair") == c15_yaml.PAIR:
+        c15_yaml.oracle_case(ck, camp, None, {"input_file_type": inp.get("input_file_type", "jsonschema")}, inp["yaml_text"])
     elif "pair" in inp:
         oracle_case(ck, camp, inp["pair"], inp["definitions"], inp.get("with_root", True), inp.get("variant", 0))
     for f in ck.failures:
